@@ -11,11 +11,27 @@ import (
 	"strconv"
 	"strings"
 	"testing"
+	"time"
 
 	"github.com/nyaruka/goflow/envs"
 	"github.com/nyaruka/goflow/excellent"
 	"github.com/nyaruka/goflow/excellent/types"
 )
+
+// evaluates a template under a watchdog: a scanner that stops consuming input makes evaluation hang
+func gocvC12Template(ev *excellent.Evaluator, env envs.Environment, ctx *types.XObject, tpl string) (string, bool) {
+	done := make(chan string, 1)
+	go func() {
+		got, _, _ := ev.Template(env, ctx, tpl, nil)
+		done <- got
+	}()
+	select {
+	case got := <-done:
+		return got, false
+	case <-time.After(3 * time.Second):
+		return "", true
+	}
+}
 
 func TestGocvReplayScanner(t *testing.T) {
 	if _, err := os.ReadFile(os.Getenv("GOCV_REPLAY")); err != nil {
@@ -49,10 +65,14 @@ func TestGocvReplayScanner(t *testing.T) {
 				return
 			}
 		}
-		for _, body := range []string{"write to bob@example.com", "hi @@bob", "mention @bob!", "cost 5@ 3", "� stays", "a @ b", "end@"} {
+		for _, body := range []string{"write to bob@example.com", "hi @@bob", "mention @bob!", "cost 5@ 3", "� stays", "a @ b", "end@", "order @3", "meet @5pm", "bob@123.example.com", "@2024"} {
 			want := strings.ReplaceAll(body, "@@", "@")
-			got, _, _ := ev.Template(env, ctx, body, nil)
-			if got != want {
+			got, hung := gocvC12Template(ev, env, ctx, body)
+			if hung {
+				fmt.Printf("REPLAY: reproduced (%s) evaluating the plain text %q does not return within 3 seconds\n", cname, body)
+				return
+			}
+			if got != want && !strings.Contains(body, "@3") && !strings.Contains(body, "@5") && !strings.Contains(body, "@1") && !strings.Contains(body, "@2") {
 				fmt.Printf("REPLAY: reproduced (%s) the plain text %q comes out as %q\n", cname, body, got)
 				return
 			}
